@@ -126,6 +126,9 @@ func LoadBehaviours(path string) ([]Behaviour, map[string]int, error) {
 			cur := queue[0]
 			queue = queue[1:]
 			for _, ei := range bySrc[cur] {
+				if edges[ei].step.Kind == "equivocate" {
+					continue // a class that may be unwitnessed is never used as a prefix
+				}
 				d := edges[ei].dst
 				if nodes[d].depth < 0 {
 					nodes[d].depth = nodes[cur].depth + 1
